@@ -559,6 +559,25 @@ class ExternalVarsVisitor(ast.NodeVisitor):
                 local_path=local_dep_path, path=path, sig=sig
             )
 
+    def _visit_comprehension_scope(self, node: Any) -> Any:
+        # The targets of the comprehension hide the variables of the module, inside the comprehension only.
+        bound = set()
+        for gen in node.generators:
+            for n in ast.walk(gen.target):
+                if isinstance(n, ast.Name):
+                    bound.add(LocalVar(n.id))
+        added = bound - set(self._local_vars)
+        self._local_vars.update(added)
+        try:
+            self.generic_visit(node)
+        finally:
+            self._local_vars.difference_update(added)
+
+    visit_ListComp = _visit_comprehension_scope
+    visit_SetComp = _visit_comprehension_scope
+    visit_DictComp = _visit_comprehension_scope
+    visit_GeneratorExp = _visit_comprehension_scope
+
     def visit_Attribute(self, node: ast.Attribute) -> Any:
         # A variable of an accepted module that is read through the module (for instance 'config.THRESHOLD')
         # is tracked like a variable that is read by its bare name.
@@ -627,6 +646,13 @@ class LocalVarsVisitor(ast.NodeVisitor):
         if isinstance(node.ctx, ast.Store):
             self.vars.add(node.id)
         self.generic_visit(node)
+
+    def visit_comprehension(self, node: ast.comprehension) -> Any:
+        # The target of a comprehension is only bound inside the comprehension: elsewhere in the
+        # function, the same name still designates the variable of the module.
+        self.visit(node.iter)
+        for cond in node.ifs:
+            self.visit(cond)
 
 
 def _function_name(node: ast.AST) -> List[str]:
